@@ -448,6 +448,16 @@ func (ex *Exec) intArith(op token.Token, a, b *Term, t types.Type, yt types.Type
 			}
 		}
 	}
+	// a | b and a ^ b over disjoint bit ranges (byte assembly: x<<k | y with
+	// y < 2^k) are plain sums
+	if op == token.OR || op == token.XOR {
+		if s := ex.disjointSum(a, b); s != nil {
+			return s
+		}
+		if s := ex.disjointSum(b, a); s != nil {
+			return s
+		}
+	}
 	// fallback through bit-vectors
 	x := ex.int2bv(a, w)
 	var r *Term
@@ -1651,9 +1661,11 @@ func (ex *Exec) rangeIter(x Value) Value {
 		if xv != nil {
 			n := len(xv.ents)
 			it.ents = append([]*mapEnt(nil), xv.ents...)
-			if n > 1 {
+			if n > 1 && !(ex.mapFixed || ex.inHarnessFrame()) {
 				// nondeterministic iteration order: any element may come first
-				// (full permutations when the harness asks for it)
+				// (full permutations when the harness asks for it); loops written
+				// in the harness itself, and code the harness declares
+				// order-insensitive (verifMapOrder(false)), iterate in insertion order
 				if ex.mapPerm && n <= 4 {
 					rest := it.ents
 					var out []*mapEnt
